@@ -525,7 +525,8 @@ func c03GateSwap(r *core.Run, rule string) {
 				continue
 			}
 			// reject edge cannot reach the update; the loop may be bypassed only when there are no referrers
-			if core.ReachAvoiding(b.Succs[0], backEdges(fn))[sb] {
+			// (a `continue outer` is a back edge itself: it ends this block's turn without reaching the update)
+			if !backEdges(fn)[core.Edge{From: b, Idx: 0}] && core.ReachAvoiding(b.Succs[0], backEdges(fn))[sb] {
 				why = "a referrer other than the If does not prevent the swap"
 				continue
 			}
@@ -839,7 +840,7 @@ func c03GateHoist(r *core.Run) {
 			}
 		})
 		r.Check(nGuards >= 2, rule, fnm+"#pure-and-invariant", upd.Pos(), "a call is hoisted only if it is a pure builtin and its arguments are loop-invariant", "a call is marked hoisted without both the purity and the argument-invariance test")
-		ok2, n2, _ := core.MustPass(fn, upd.Block(), func(cond ssa.Value) (bool, bool) {
+		ok2, n2, _ := mustPassLifted(p, fn, upd.Block(), func(cond ssa.Value) (bool, bool) {
 			op, x, y, neg, ok := core.Compare(cond)
 			if !ok || neg {
 				return false, false
